@@ -11,6 +11,7 @@ import hashlib
 import itertools
 import random
 import threading
+import time as _time
 
 from vlib import genclasses
 from vlib.values import Gen, Obj, UserError, UserError2, InterruptLike, teq, in_domain
@@ -100,6 +101,7 @@ class Journal(object):
     def add(self, ev):
         with self._lock:
             ev['n'] = len(self.events)
+            ev['t'] = _time.time()
             ev['thread'] = ev.get('thread') or self.thread()
             self.events.append(ev)
             return ev
@@ -661,8 +663,10 @@ class Built(object):
             r = self._exec_steps(self.prog['body'])
         except BaseException as ex:  # noqa
             ev['raised'] = ex
+            ev['t_end'] = _time.time()
             raise
         ev['returned'] = r
+        ev['t_end'] = _time.time()
         return r
 
     def _exec_steps(self, steps):
@@ -754,6 +758,9 @@ class Built(object):
                 rec.record_data(s['key'], v)
                 got = rec.play_data(s['key'])
                 self.journal.add({'ev': 'play_data', 'key': s['key'], 'recorded': v, 'played': got})
+            return None
+        if op == 'sleep':
+            _time.sleep(s['s'])
             return None
         if op == 'mutate':
             from vlib.values import mutate_deep
